@@ -97,36 +97,34 @@ theorem agg_count_exact (rows : List Tuple) (gb : List Nat) (k : Tuple) (c : Nat
 
 def colI64 (c : Nat) (t : Tuple) : Int := match t[c]? with | some v => toI64 v | none => 0
 
-theorem satFold_exact : ∀ (vals : List Int) (acc : Int),
-    (acc.natAbs + (vals.map Int.natAbs).sum < 2^63) →
-    vals.foldl (fun a v => satI64 (a + v)) acc = acc + vals.foldl (· + ·) 0
-  | [], acc, _ => by simp
-  | v :: vs, acc, h => by
-    simp only [List.map_cons, List.sum_cons] at h
-    have h1 : satI64 (acc + v) = acc + v := by
-      unfold satI64
-      have : (acc + v).natAbs ≤ acc.natAbs + v.natAbs := Int.natAbs_add_le acc v
-      split
-      · omega
-      · split <;> omega
-    have h2 : (acc + v).natAbs + (vs.map Int.natAbs).sum < 2^63 := by
-      have : (acc + v).natAbs ≤ acc.natAbs + v.natAbs := Int.natAbs_add_le acc v
-      omega
-    simp only [List.foldl_cons, h1]
-    rw [satFold_exact vs (acc + v) h2]
-    have e : ∀ (l : List Int) (a : Int), l.foldl (· + ·) a = a + l.foldl (· + ·) 0 := by
-      intro l; induction l with
-      | nil => intro a; simp
-      | cons x xs ih => intro a; simp only [List.foldl_cons]; rw [ih (a + x), ih (0 + x)]; omega
-    rw [e vs (0 + v)]; omega
+/-- `sum` is the exact integer sum of the column over the group, clamped to the i64 range once. -/
+theorem agg_sum_clamped (g : List Tuple) (c : Nat) :
+    aggVal g (.sum, c) = .i64 (satI64 ((g.map (colI64 c)).foldl (· + ·) 0)) := by
+  have e : aggVal g (.sum, c) = .i64 (satI64 (g.foldl (fun acc t => acc + colI64 c t) 0)) := rfl
+  rw [e, List.foldl_map]
 
-/-- `sum` is the exact integer sum of the column over the group whenever the absolute values fit. -/
+theorem satI64_of_fits {n : Int} (h : n.natAbs < 2^63) : satI64 n = n := by
+  unfold satI64
+  split
+  · omega
+  · split <;> omega
+
+theorem foldl_add_natAbs_le : ∀ (vals : List Int) (acc : Int),
+    (vals.foldl (· + ·) acc).natAbs ≤ acc.natAbs + (vals.map Int.natAbs).sum
+  | [], acc => by simp
+  | v :: vs, acc => by
+    have := foldl_add_natAbs_le vs (acc + v)
+    have h2 : (acc + v).natAbs ≤ acc.natAbs + v.natAbs := Int.natAbs_add_le acc v
+    simp only [List.foldl_cons, List.map_cons, List.sum_cons]
+    omega
+
+/-- … in particular the exact sum whenever the absolute values fit. -/
 theorem agg_sum_exact (g : List Tuple) (c : Nat) (h : ((g.map (colI64 c)).map Int.natAbs).sum < 2^63) :
     aggVal g (.sum, c) = .i64 ((g.map (colI64 c)).foldl (· + ·) 0) := by
-  have := satFold_exact (g.map (colI64 c)) 0 (by simpa using h)
-  rw [List.foldl_map] at this
-  have e : aggVal g (.sum, c) = .i64 (g.foldl (fun acc t => satI64 (acc + colI64 c t)) 0) := rfl
-  rw [e, this]; simp
+  rw [agg_sum_clamped, satI64_of_fits]
+  have := foldl_add_natAbs_le (g.map (colI64 c)) 0
+  simp only [Int.natAbs_zero, Nat.zero_add] at this
+  omega
 
 /-! ### min / max -/
 
